@@ -95,3 +95,86 @@ mod proofs {
     // (a `divide_bits` harness of the same shape did not finish within 40 minutes of CBMC time - float division is too heavy to bit-blast;
     //  Divide's gating is proved above, its quotient by the Verus contract in the scalar model)
 }
+
+// Bounded checks (sequences of at most 3 elements, ring buffer rotated by up to 2 positions) of the contracts that the Verus shim ASSUMES for
+// std: the helpers standing for `q.iter()[.copied()].min_by/max_by(partial_cmp ..)` (rule R2), `Vec::last().copied()` (R6), `clone()` of scalar
+// buffers (M4), and the `assume_specification`s of VecDeque::{front, back, get, is_empty}.  The expressions are the ones in /repo/src, run on the
+// real std.  Bounded stand-ins for trusted contracts: reported as such, never as proofs.
+#[cfg(kani)]
+mod std_specs {
+    use std::cmp::Ordering;
+    use std::collections::VecDeque;
+    const MAXN: usize = 3;
+    fn fin() -> f64 { let x: f64 = kani::any(); kani::assume(x.is_finite()); x }
+    /// a deque whose contents are `sh[..n]`, with its head rotated by `rot` slots inside the ring buffer
+    fn any_deque() -> (VecDeque<f64>, [f64; MAXN], usize) {
+        let mut q: VecDeque<f64> = VecDeque::with_capacity(MAXN);
+        let rot: usize = kani::any(); kani::assume(rot < MAXN);
+        if rot >= 1 { q.push_back(0.0); q.pop_front(); }
+        if rot >= 2 { q.push_back(0.0); q.pop_front(); }
+        let n: usize = kani::any(); kani::assume(n <= MAXN);
+        let sh = [fin(), fin(), fin()];
+        if n >= 1 { q.push_back(sh[0]); }
+        if n >= 2 { q.push_back(sh[1]); }
+        if n >= 3 { q.push_back(sh[2]); }
+        (q, sh, n)
+    }
+    fn is_min_of(m: f64, sh: &[f64; MAXN], n: usize) -> bool {
+        let mut all = true; let mut some = false; let mut i = 0;
+        while i < n { if !(m <= sh[i]) { all = false; } if m.to_bits() == sh[i].to_bits() { some = true; } i += 1; }
+        all && some
+    }
+    fn is_max_of(m: f64, sh: &[f64; MAXN], n: usize) -> bool {
+        let mut all = true; let mut some = false; let mut i = 0;
+        while i < n { if !(m >= sh[i]) { all = false; } if m.to_bits() == sh[i].to_bits() { some = true; } i += 1; }
+        all && some
+    }
+    #[kani::proof]
+    #[kani::unwind(5)]
+    fn std_min_max_by() {
+        let (q, sh, n) = any_deque();
+        // Min / Max (src/sliding_windows/min.rs, max.rs)
+        let mn = q.iter().copied().min_by(|a, b| a.partial_cmp(b).expect("Can compare elements"));
+        let mx = q.iter().copied().max_by(|a, b| a.partial_cmp(b).expect("Can compare elements"));
+        assert!(mn.is_none() == (n == 0)); assert!(mx.is_none() == (n == 0));
+        if n > 0 {
+            assert!(is_min_of(mn.unwrap(), &sh, n)); assert!(is_max_of(mx.unwrap(), &sh, n));
+            // EhlersFisherTransform (src/sliding_windows/ehlers_fisher_transform.rs)
+            let hi = *q.iter().max_by(|x, y| x.partial_cmp(y).unwrap_or(Ordering::Equal)).unwrap();
+            let lo = *q.iter().min_by(|x, y| x.partial_cmp(y).unwrap_or(Ordering::Equal)).unwrap();
+            assert!(is_max_of(hi, &sh, n)); assert!(is_min_of(lo, &sh, n));
+        }
+    }
+    #[kani::proof]
+    #[kani::unwind(5)]
+    fn std_deque_access() {
+        let (q, sh, n) = any_deque();
+        assert!(q.len() == n);
+        assert!(q.is_empty() == (n == 0));
+        assert!(q.front().map(|x| x.to_bits()) == if n > 0 { Some(sh[0].to_bits()) } else { None });
+        assert!(q.back().map(|x| x.to_bits()) == if n > 0 { Some(sh[n - 1].to_bits()) } else { None });
+        let i: usize = kani::any(); kani::assume(i <= MAXN + 1);
+        assert!(q.get(i).map(|x| x.to_bits()) == if i < n { Some(sh[i].to_bits()) } else { None });
+        assert!(q.get(i).copied().map(|x| x.to_bits()) == if i < n { Some(sh[i].to_bits()) } else { None });
+        if i < n { assert!(q[i].to_bits() == sh[i].to_bits()); }
+        // iteration order of `for v in q.iter()` / `.iter().enumerate()` (rules R1, R10): front to back
+        let mut j = 0;
+        for (k, v) in q.iter().enumerate() { assert!(k == j && v.to_bits() == sh[k].to_bits()); j += 1; }
+        assert!(j == n);
+    }
+    #[kani::proof]
+    #[kani::unwind(5)]
+    fn std_clone_last() {
+        let (q, sh, n) = any_deque();
+        let c = q.clone();
+        assert!(c.len() == n);
+        let i: usize = kani::any(); kani::assume(i < MAXN);
+        if i < n { assert!(c[i].to_bits() == sh[i].to_bits() && q[i].to_bits() == sh[i].to_bits()); }
+        let mut v: Vec<f64> = Vec::new();
+        let mut k = 0; while k < n { v.push(sh[k]); k += 1; }
+        let vc = v.clone();
+        assert!(vc.len() == n);
+        if i < n { assert!(vc[i].to_bits() == sh[i].to_bits()); }
+        assert!(v.last().copied().map(|x| x.to_bits()) == if n > 0 { Some(sh[n - 1].to_bits()) } else { None });
+    }
+}
